@@ -26,7 +26,7 @@ type c15Case struct {
 	Class  string   `json:"class"`
 	A      []uint32 `json:"a"`
 	B      []uint32 `json:"b"`
-	Impl   string   `json:"impl,omitempty"` // child mode: which implementation to run
+	Impl   string   `json:"impl,omitempty"`   // child mode: which implementation to run
 	Native []uint32 `json:"native,omitempty"` // euclidean, manhattan, cosine (bits)
 	Avx    []uint32 `json:"avx,omitempty"`
 	Sse    []uint32 `json:"sse,omitempty"`
